@@ -183,12 +183,17 @@ package labelmap
 
 // storeBlocks (POST .../blocks): for every scale-0 block read from the stream an update of the max label
 // with that block's labels has been started before the block is written (C12: ingested labels are
-// covered by the label counter, with or without indexing).
+// covered by the label counter, with or without indexing). The indexing channel, into which the per-block
+// callbacks send from their own goroutines, is closed only after all of them have finished (putWG.Wait()):
+// a send on a closed channel panics outside any recover (C20).
 //@ func Data.storeBlocks
-//@   prop C12
+//@   prop C12 C20
 //@   requires d != nil && d.MaxLabel != nil
 //@   safety_off
 //@   requires_off
 //@   modifies *
 //@   ghost gmax uint64 = arbitrary()
+//@   ghost waited bool = false
+//@   ghostset after "putWG.Wait()": waited = true
+//@   assert at "close(blockCh)": waited
 //@   assert at "serialization, err := dvid.SerializePrecompressedData(compressed, d.Compression(), d.Checksum())": scale == 0 && block != nil ==> (forall k int :: {block.Labels[k]} 0 <= k && k < len(block.Labels) ==> gmax >= block.Labels[k])
